@@ -177,6 +177,7 @@ pub fn cfg_strategy(p: Profile, thorough: bool) -> BoxedStrategy<Cfg> {
                 c.sync = b3;
                 c.vis = 0;
                 c.clients = c.clients.min(2);
+                c.timeout_ms = if b2 { 30 } else { 10_000 };
                 Just(c).boxed()
             }
             Profile::Tight => {
@@ -259,6 +260,7 @@ pub fn step_strategy(cfg: &Cfg, p: Profile) -> BoxedStrategy<Step> {
         (6, (0..clients, 1..3usize).prop_map(|(client, n)| Step::DeliverUpd { client, n }).boxed()),
         (8, (0..clients, any::<u16>()).prop_map(|(client, idx)| Step::DeliverMut { client, idx }).boxed()),
         (if lossy { 5 } else { 2 }, (0..clients, any::<u16>()).prop_map(|(client, idx)| Step::DropMut { client, idx }).boxed()),
+        (if split { 8 } else if lossy { 2 } else { 0 }, (0..clients, any::<u8>(), any::<bool>()).prop_map(|(client, mask, ack)| Step::PartialMut { client, mask, ack }).boxed()),
         (if lossy { 4 } else { 6 }, (0..clients, 1..3usize).prop_map(|(client, n)| Step::DeliverAck { client, n }).boxed()),
         (2, (0..clients).prop_map(|client| Step::Connect { client }).boxed()),
     ];
@@ -277,6 +279,10 @@ pub fn step_strategy(cfg: &Cfg, p: Profile) -> BoxedStrategy<Step> {
     ));
     v.push((w(cfg.faults, if sessions { 4 } else { 1 }), (0..clients).prop_map(|client| Step::Disconnect { client }).boxed()));
     v.push((w(sessions, 4), (0..clients).prop_map(|client| Step::Connect { client }).boxed()));
+    v.push((
+        w(cfg.faults, if sessions { 4 } else { 2 }),
+        (0..clients, 0..slots, 0u8..16, proptest::bool::weighted(0.3)).prop_map(|(client, slot, what, restart)| Step::FaultEpisode { client, slot, what, restart }).boxed(),
+    ));
     v.push((w(cfg.faults, 2), prop_oneof![2 => Just(Step::ServerRestart), 2 => Just(Step::ServerStop), 3 => Just(Step::ServerStart)].boxed()));
     v.push((w(cfg.auth == 1, 3), (0..clients).prop_map(|client| Step::Authorize { client }).boxed()));
     v.push((
@@ -284,7 +290,8 @@ pub fn step_strategy(cfg: &Cfg, p: Profile) -> BoxedStrategy<Step> {
         (0..clients, proptest::collection::vec(any::<u8>(), 0..6)).prop_map(|(client, bytes)| Step::JunkAck { client, bytes }).boxed(),
     ));
     if cfg.events {
-        let _ = matches!(p, Profile::Events3);
+        v.push((if matches!(p, Profile::Events3) { 8 } else { 3 }, (0..clients).prop_map(|client| Step::EventsFirst { client }).boxed()));
+        v.push((4, (0..clients).prop_map(|client| Step::EventsOnly { client }).boxed()));
         v.push((8, (sk(), 0u8..3, 0..clients, 0..slots).prop_map(|(kind, mode, target, refslot)| Step::EmitS { kind, mode, target, refslot }).boxed()));
         v.push((5, (0..clients, ck(), 0..slots).prop_map(|(client, kind, refslot)| Step::EmitC { client, kind, refslot }).boxed()));
         v.push((10, (0..clients, any::<u16>(), any::<u16>()).prop_map(|(client, chan, idx)| Step::DeliverSEv { client, chan, idx }).boxed()));
